@@ -84,6 +84,13 @@ CLAIMED = {
                      "branches (6 thorough) are built through refinement()/alternative()/Add; every branch condition is a fresh "
                      "symbolic comparison, so all 2^B firing patterns per object are decided by z3; the produced (type, object) "
                      "multiset is proved equal to a recursive reference interpreter, also on re-evaluation and with caching off."),
+    "C13": dict(design_ref="DESIGN.md 7/C13",
+                text="Bounded-exhaustive symbolic execution: T(From(d), ...) for every subset of fields given by keyword, every "
+                     "positional prefix after the domain (+ rest by keyword), a dataclass and a hand-written __init__, nested "
+                     "T'(...) terms as field values, list/tuple/generator domains whose members' classes are chosen through the "
+                     "solver among T / decorated subclass / undecorated subclass / unrelated @symbol class / str, with SYMBOLIC "
+                     "constraint values and field values: predicate form, explicit form and the reference are proved equal for "
+                     "every valuation."),
 }
 
 NOT_APPLICABLE = {pid: PENDING for pid in ["C%02d" % i for i in range(1, 21)] if pid not in CLAIMED}
